@@ -179,7 +179,10 @@ def run_case(ctx, case):
         gc.collect()
         _churn(sizes)
         d2 = b.describe(last.handle)
-        v2 = model.value(d2)
+        try:
+            v2 = model.value(d2)
+        except Exception:
+            v2 = v1 if isinstance(v1, str) and v1.startswith("<unreadable") else "<unreadable result>"
         ctx.count("drop_inputs_checked")
         if not model.same(v1, v2):
             ctx.violation("result-depends-on-released-input", {"op": case["ops"][-1], "before": model.brief(v1),
